@@ -507,11 +507,53 @@ func (v *vpool) directedEqualise() {
 	}
 }
 
+// a full pool whose cheapest transaction is a LOCAL one; the sender of the cheapest remote transaction then submits the same
+// nonce again at the same price and at a price below the bump: neither may take the place of the pooled one (through the
+// eviction of "the cheapest remote transaction" it used to)
+func (v *vpool) directedEvictReplace() {
+	add := func(s int, nonce uint64, price int64, value int64, local bool) {
+		t := v.mkTx(s, nonce, price, 21000, value)
+		var err error
+		if local {
+			err = v.pool.AddLocal(t.tx)
+		} else {
+			err = v.pool.AddRemote(t.tx)
+		}
+		v.emitOp("add", fmt.Sprintf("s%d", s), v.txJSON(t), err, nil, 0)
+	}
+	limit := int(v.pool.config.GlobalSlots + v.pool.config.GlobalQueue)
+	size := func() int {
+		v.pool.mu.RLock()
+		defer v.pool.mu.RUnlock()
+		return len(v.pool.all)
+	}
+	add(0, 0, 13, 1, true)
+	add(1, 0, 40, 1, false)
+	// executable transactions of three other senders, then their queued ones, until the pool is full
+	next := map[int]uint64{}
+	for k := 0; size() < limit && k < 4*limit; k++ {
+		s := 2 + k%3
+		add(s, next[s], 50+int64(k), 1, false)
+		next[s]++
+	}
+	for k := 0; size() < limit && k < 4*limit; k++ {
+		s := 2 + k%3
+		add(s, next[s]+2+uint64(k/3), 70+int64(k), 1, false)
+	}
+	add(1, 0, 40, 2, false) // same nonce, same price
+	add(1, 0, 42, 3, false) // same nonce, 5 % more
+	add(1, 0, 44, 4, false) // same nonce, 10 % more: a replacement
+}
+
 func (v *vpool) history(nops int) {
 	if vpFair {
 		v.directedEqualise()
-	} else if !v.roomy && v.rng.Intn(2) == 0 {
-		v.directedUneven()
+	} else if !v.roomy {
+		if v.rng.Intn(2) == 0 {
+			v.directedEvictReplace()
+		} else {
+			v.directedUneven()
+		}
 	}
 	for i := 0; i < nops; i++ {
 		switch r := v.rng.Intn(20); {
